@@ -256,11 +256,26 @@ Proof.
   { destruct (trb =? 0) eqn:E; [|reflexivity]. replace (oi + h + B - trb) with (zlen (dropz trt M)) by lia.
     symmetry. apply takez_all. lia. }
   rewrite E2.
-  assert (E3 : (if trt =? 0 then match cur with Some cy => Some (zlen MA + cy) | None => None end
-                else match match cur with Some cy => Some (zlen MA + cy) | None => None end with
-                     | Some y => Some (y - trt) | None => None end)
-               = cur_out its f (zlen X + trt) cur).
-  { unfold cur_out. rewrite Erb, LA, LX. destruct cur as [cy|]; destruct (trt =? 0) eqn:E; try reflexivity; f_equal; lia. }
+  set (c0 := match cur with Some cy => Some (zlen MA + cy) | None => None end).
+  set (c1 := if trt =? 0 then c0 else
+             match c0 with
+             | Some y => if (0 <=? y - trt) && (y - trt <? zlen M - trt) then Some (y - trt) else None
+             | None => None
+             end).
+  assert (E3 : (if trb =? 0 then c1 else
+                match c1 with
+                | Some y => if (0 <=? y) && (y <? oi + h + B - trb) then Some y else None
+                | None => None
+                end) = cur_out its f (zlen X + trt) cur).
+  { unfold cur_out, c1, c0. rewrite Erb, LA, LX. destruct cur as [cy|].
+    - specialize (Fcur cy eq_refl).
+      destruct (trt =? 0) eqn:Et.
+      + destruct (trb =? 0) eqn:Eb; [f_equal; lia|].
+        destruct ((0 <=? A + cy) && (A + cy <? oi + h + B - trb)) eqn:Ec; [f_equal; lia | lia].
+      + destruct ((0 <=? A + cy - trt) && (A + cy - trt <? zlen M - trt)) eqn:Ec1; [|lia].
+        destruct (trb =? 0) eqn:Eb; [f_equal; lia|].
+        destruct ((0 <=? A + cy - trt) && (A + cy - trt <? oi + h + B - trb)) eqn:Ec; [f_equal; lia | lia].
+    - destruct (trt =? 0), (trb =? 0); reflexivity. }
   rewrite E3.
   exists (zlen X + trt).
   assert (Hall : zlen (all_rows its) = tot restA + (A + h + B) + tot restB).
